@@ -5,12 +5,28 @@
 import Driver.Util
 import Driver.ElimTree
 import Driver.NonnegMean
+import Driver.Merge
+import Driver.Assorter
+import Driver.Status
+import Driver.IrvBallot
+import Driver.Dominion
+import Driver.Manifest
+import Driver.Sampling
+import Driver.Phantoms
 open Lean Shangrla Shangrla.Drv
 
 def dispatch (g op : String) (a : Json) : R Json :=
   match g with
   | "elimtree" => ElimTreeH.handle op a
   | "nm" => NMH.handle op a
+  | "merge" => MergeH.handle op a
+  | "assorter" => AssorterH.handle op a
+  | "status" => StatusH.handle op a
+  | "irvballot" => IrvBallotH.handle op a
+  | "dominion" => DominionH.handle op a
+  | "manifest" => ManifestH.handle op a
+  | "sampling" => SamplingH.handle op a
+  | "phantoms" => PhantomsH.handle op a
   | _ => throw s!"unknown group {g}"
 
 def handleLine (line : String) : String :=
